@@ -240,7 +240,7 @@ var bigStrLens = []int{65534, 65535}
 
 func GenString(r *prng.R, allowBig bool) string {
 	n := strLens[r.Intn(len(strLens))]
-	if allowBig && r.Chance(1, 40) {
+	if allowBig && r.Chance(1, 300) {
 		n = bigStrLens[r.Intn(len(bigStrLens))]
 	}
 	b := make([]byte, n)
@@ -289,7 +289,7 @@ func GenDir(r *prng.R) p9p.Dir {
 
 func GenData(r *prng.R, max int) []byte {
 	n := r.Pick(0, 0, 1, 2, 23, 24, 100, 4096, 8192)
-	if r.Chance(1, 30) {
+	if r.Chance(1, 150) {
 		n = r.Pick(65535, 65536, 70000)
 	}
 	if n > max {
@@ -303,7 +303,7 @@ func GenData(r *prng.R, max int) []byte {
 
 func GenNames(r *prng.R) []string {
 	n := r.Pick(0, 0, 1, 1, 2, 3, 16, 17, 40)
-	if r.Chance(1, 60) {
+	if r.Chance(1, 150) {
 		n = r.Pick(300, 65535)
 	}
 	out := make([]string, n)
@@ -319,7 +319,7 @@ func GenNames(r *prng.R) []string {
 
 func GenQids(r *prng.R) []p9p.Qid {
 	n := r.Pick(0, 0, 1, 2, 16, 17)
-	if r.Chance(1, 60) {
+	if r.Chance(1, 150) {
 		n = r.Pick(300, 65535)
 	}
 	out := make([]p9p.Qid, n)
